@@ -829,3 +829,145 @@ func c14r7(rc *core.RC) {
 		rc.Unknown("module/program-tables", token.NoPos, "found %d map types with compiled programs as elements (confirmed: 25 occurrences)", n)
 	}
 }
+
+// ---- C14.R8 the decoder of the pointee is only used for a pointer ----
+
+// guardedOnAllPaths reports whether every flow-graph path from the function's entry to target crosses an edge that a
+// condition makes safe: safe(cond) says whether the true edge and whether the false edge of a two-way block establish
+// the fact wanted.
+func guardedOnAllPaths(cf *core.FuncCFG, target ast.Node, safe func(cond ast.Expr) (onTrue, onFalse bool)) (guarded, found bool) {
+	tb, _ := cf.BlockOf(target)
+	if tb == nil || len(cf.G.Blocks) == 0 {
+		return false, false
+	}
+	safeEdge := map[[2]int32]bool{}
+	for _, b := range cf.G.Blocks {
+		if len(b.Succs) != 2 || len(b.Nodes) == 0 {
+			continue
+		}
+		cond, isExpr := b.Nodes[len(b.Nodes)-1].(ast.Expr)
+		if !isExpr {
+			continue
+		}
+		t, f := safe(cond)
+		if t {
+			safeEdge[[2]int32{b.Index, b.Succs[0].Index}] = true
+		}
+		if f {
+			safeEdge[[2]int32{b.Index, b.Succs[1].Index}] = true
+		}
+	}
+	seen := map[int32]bool{}
+	stack := []*cfg.Block{cf.G.Blocks[0]}
+	for len(stack) > 0 {
+		b := stack[len(stack)-1]
+		stack = stack[:len(stack)-1]
+		if seen[b.Index] {
+			continue
+		}
+		seen[b.Index] = true
+		if b == tb {
+			return false, true
+		}
+		for _, su := range b.Succs {
+			if !safeEdge[[2]int32{b.Index, su.Index}] {
+				stack = append(stack, su)
+			}
+		}
+	}
+	return true, true
+}
+
+// CompileToGetDecoder takes the type of a POINTER destination and returns the decoder of what it points to. Inside the
+// decoder package it is called for the value an interface{} destination already holds; that value can be of any kind.
+// Every such call has to be reachable only where the type's kind was tested to be Ptr: for a chan, a func, a
+// one-element array of pointers or a struct with one pointer field (all stored directly in the interface word, like a
+// pointer) the decoder of the element type would be applied to memory of another type.
+func c14r8(rc *core.RC) {
+	p := rc.P
+	n := 0
+	for _, fd := range p.Funcs("decoder") {
+		if fd.Body == nil {
+			continue
+		}
+		info := p.Info(fd)
+		var calls []*ast.CallExpr
+		ast.Inspect(fd.Body, func(m ast.Node) bool {
+			if c, ok := m.(*ast.CallExpr); ok && strings.HasSuffix(core.CalleeName(info, c), "decoder.CompileToGetDecoder") && len(c.Args) == 1 {
+				calls = append(calls, c)
+			}
+			return true
+		})
+		if len(calls) == 0 {
+			continue
+		}
+		fn := p.FuncName(fd)
+		rc.Touch(fn)
+		cf := core.BuildCFGFor(fd, info)
+		for i, c := range calls {
+			n++
+			typ := core.ObjOf(info, c.Args[0])
+			key := fmt.Sprintf("%s/CompileToGetDecoder#%d only-for-pointer-kind", fn, i+1)
+			if typ == nil {
+				rc.Unknown(key, c.Pos(), "the type argument is not a variable")
+				continue
+			}
+			isKindCmp := func(e ast.Expr, op token.Token) bool {
+				be, ok := core.Unparen(e).(*ast.BinaryExpr)
+				if !ok || be.Op != op {
+					return false
+				}
+				kc, isCall := core.Unparen(be.X).(*ast.CallExpr)
+				if !isCall {
+					return false
+				}
+				sel, isSel := kc.Fun.(*ast.SelectorExpr)
+				if !isSel || sel.Sel.Name != "Kind" || core.ObjOf(info, sel.X) != typ {
+					return false
+				}
+				rs, isRS := core.Unparen(be.Y).(*ast.SelectorExpr)
+				return isRS && rs.Sel.Name == "Ptr"
+			}
+			safe := func(cond ast.Expr) (bool, bool) {
+				onTrue, onFalse := false, false
+				// Kind() != Ptr among the top-level disjuncts: the false edge knows Kind() == Ptr
+				var disj func(e ast.Expr)
+				disj = func(e ast.Expr) {
+					e = core.Unparen(e)
+					if be, ok := e.(*ast.BinaryExpr); ok && be.Op == token.LOR {
+						disj(be.X)
+						disj(be.Y)
+						return
+					}
+					if isKindCmp(e, token.NEQ) {
+						onFalse = true
+					}
+				}
+				disj(cond)
+				var conj func(e ast.Expr)
+				conj = func(e ast.Expr) {
+					e = core.Unparen(e)
+					if be, ok := e.(*ast.BinaryExpr); ok && be.Op == token.LAND {
+						conj(be.X)
+						conj(be.Y)
+						return
+					}
+					if isKindCmp(e, token.EQL) {
+						onTrue = true
+					}
+				}
+				conj(cond)
+				return onTrue, onFalse
+			}
+			guarded, found := guardedOnAllPaths(cf, c, safe)
+			if !found {
+				rc.Unknown(key, c.Pos(), "call not found in the flow graph")
+				continue
+			}
+			rc.Check(guarded, key, c.Pos(), "every path to CompileToGetDecoder(%s) passes a test that establishes %s.Kind() == reflect.Ptr: for another kind that is stored directly in the interface word (chan, func, [1]*T, struct{ *T }) the decoder of the element type would be applied to a value of that other type", typ.Name(), typ.Name())
+		}
+	}
+	if n < 2 {
+		rc.Unknown("decoder/CompileToGetDecoder-calls", token.NoPos, "found %d calls of CompileToGetDecoder inside the decoder package (confirmed: interfaceDecoder.Decode and DecodeStream)", n)
+	}
+}
